@@ -59,7 +59,7 @@ var c15Calls = []string{"ltm.has", "ltm.next", "ltm.sizes", "ltm.acq", "lsq.acq"
 var c15Scripts = []string{"ok", "silent", "close", "wrong", "extra", "garbage", "trunc", "unknown", "mid", "flood"}
 
 func init() {
-	register(&Prop{ID: "C15", Gen: genC15, Run: runC15, Timeout: 120 * time.Second})
+	register(&Prop{ID: "C15", Gen: genC15, Run: runC15, Timeout: 60 * time.Second})
 }
 
 func genC15(r *Rand, n int, tier string, emit func(string)) {
@@ -187,7 +187,7 @@ func runC15(op string) string {
 		vm := protocol.GetProtocolVersionMap(protocol.ProtocolModeNodeToNode, 764824073, false, false, false)
 		go func() {
 			_ = peer.send(0, g5enc(handshake.NewMsgProposeVersions(vm)))
-			_, _ = peer.recv(0x8000, 20*time.Second)
+			_, _ = peer.recv(0x8000, 10*time.Second)
 			// … and opens tx-submission
 			_ = peer.send(txsubmission.ProtocolId, g5enc([]any{uint64(txsubmission.MessageTypeInit)}))
 		}()
@@ -202,7 +202,7 @@ func runC15(op string) string {
 	} else {
 		// handshake responder: accept the highest proposed version with the proposer's own data
 		go func() {
-			msg, err := peer.recv(0, 20*time.Second)
+			msg, err := peer.recv(0, 10*time.Second)
 			if err != nil {
 				return
 			}
@@ -237,7 +237,7 @@ func runC15(op string) string {
 	if spec.server {
 		select {
 		case <-initCh:
-		case <-time.After(20 * time.Second):
+		case <-time.After(10 * time.Second):
 			return "no-init"
 		}
 	}
@@ -288,7 +288,7 @@ func runC15(op string) string {
 		}
 	}()
 	// serve the requests that precede the one under test, then apply the script
-	deadline := time.Now().Add(30 * time.Second)
+	deadline := time.Now().Add(10 * time.Second)
 	gotReq := false
 	for !gotReq && time.Now().Before(deadline) {
 		msg, err := peer.recv(fromLib, 200*time.Millisecond)
@@ -327,7 +327,7 @@ func runC15(op string) string {
 			if e != nil {
 				return "prep-failed:" + strings.ReplaceAll(e.Error(), " ", "_")
 			}
-		case <-time.After(30 * time.Second):
+		case <-time.After(10 * time.Second):
 			return "prep-hang"
 		}
 	}
@@ -394,7 +394,7 @@ func runC15(op string) string {
 		// (bounded) before the peer disconnects; otherwise a short silence is enough
 		quiet := 60 * time.Millisecond
 		if script == "ok" || script == "extra" || script == "flood" {
-			quiet = 20 * time.Second
+			quiet = 12 * time.Second
 		}
 		if stopCall {
 			quiet = 1500 * time.Millisecond
@@ -410,7 +410,7 @@ func runC15(op string) string {
 		select {
 		case e := <-resCh:
 			ret = &e
-		case <-time.After(10 * time.Second):
+		case <-time.After(8 * time.Second):
 		}
 	}
 	retStr := "HANG"
@@ -426,10 +426,10 @@ func runC15(op string) string {
 	select {
 	case <-closed:
 		closeStr = "ok"
-	case <-time.After(20 * time.Second):
+	case <-time.After(8 * time.Second):
 	}
 	ecStr := "open"
-	ecDeadline := time.After(20 * time.Second)
+	ecDeadline := time.After(8 * time.Second)
 drainErr:
 	for {
 		select {
@@ -442,7 +442,7 @@ drainErr:
 			break drainErr
 		}
 	}
-	n, _ := g5WaitLibGoroutines(base, 20*time.Second)
+	n, _ := g5WaitLibGoroutines(base, 8*time.Second)
 	leak := n - base
 	if leak < 0 {
 		leak = 0
